@@ -16,6 +16,7 @@ def dispatch (st : DState) (line : String) : DState × String :=
   let toks := (line.splitOn " ").filter (· ≠ "")
   match toks with
   | "codec" :: rest => (st, (Drv.Codec.handle rest).getD "bad-op")
+  | "stream" :: rest => (st, (Drv.Stream.handle rest).getD "bad-op")
   | "tree" :: rest =>
     match Drv.Topic.handle st.topic rest with
     | some (t, out) => ({ st with topic := t }, out)
